@@ -46,6 +46,8 @@ def oracle_transition(c):
         # the last full round of checks: every member reported the state
         checks = [(d[1], a[0][0] & 0x0f) for fr, ans in zip(c["frames"], c["answers"]) for d, a in zip(fr, ans) if d[0] == 3]
         last = checks[-len(subs):] if subs else []
+        if any(a[0][0] & 0x10 for fr, ans in zip(c["frames"], c["answers"]) for d, a in zip(fr, ans) if d[0] == 3):
+            return "error-ignored", "transition returned Ok although a member's status carried the error indication while the group waited"
         if [a for a, _ in last] != subs or any(s != want for _, s in last):
             return "unsound-success", "transition returned Ok although the last round of checks does not show every member in the requested state"
     else:
@@ -62,6 +64,26 @@ def oracle_transition(c):
     return None
 
 
+def oracle_waitall(c):
+    """MainDevice::wait_for_state against the devices' own scripts (not the ORed answers)"""
+    want = c["desired"]
+    if c["res"] == "HANG":
+        return "wait-hang", "the network-wide wait neither succeeded nor failed"
+    polled = c["seen"]
+    if c["res"] == "Ok":
+        last = polled[-1] if polled else []
+        if len(last) != c["counted"] or len(last) != c["n"] - sum(1 for s in c["scripts"] if s["absent"]):
+            return "wait-unsound-success", "Ok although not every counted device answered the last poll"
+        if any((v & 0x1f) != want for v in last):
+            return "wait-unsound-success", f"Ok although the devices reported {last} on the last poll (requested {want})"
+        if any(v & 0x10 for rnd in polled for v in rnd):
+            return "wait-error-ignored", "Ok although a device signalled an error during the wait"
+    else:
+        if c["elapsed_us"] > c["timeout_us"] + 100:
+            return "wait-late-error", "the error came later than the transition timeout"
+    return None
+
+
 def spec_summary(l):
     g = 0
     for s in l:
@@ -72,6 +94,69 @@ def spec_summary(l):
     def ins(v):
         return 1 if ((all(s == v for s in l)) if l else v == 0) else 0
     return [g & 15, single, allop, ins(0), ins(1), ins(2), 0, ins(4), ins(8)]
+
+
+def cycle_stage(ctx, n, distinct):
+    """the state list of real cycles (C07 harness): one check per member in group order, the list is
+    what the devices answered, the response's own summaries describe that list; compared with the
+    model's state list and check order (coq/Cycle/CycleChecks.v obs_states)"""
+    from props import c07 as C7
+    rc, out, exe = vlib.cargo_build("c07")
+    if rc != 0:
+        ctx.violation("cycle harness does not build against the current tree: " + out[-400:], {"broken": "correspondence", "log": out[-3000:]}, no_input=True)
+        return 0
+    rc, out, _ = vlib.sh([exe, str(ctx.seed + 7), str(n)], timeout=600)
+    cases = [json.loads(l) for l in out.splitlines() if l.startswith("{")]
+    if rc != 0 or len(cases) < n:
+        ctx.violation("cycle harness did not finish (%d of %d cases): %s" % (len(cases), n, out[-300:]),
+                      {"broken": "harness-run", "completed": len(cases), "log": out[-1500:]}, no_input=False)
+    multi = 0
+    for c in cases:
+        if c["res"] != "Ok":
+            continue
+        slim = {k: c[k] for k in c if k not in ("img", "img_after")}
+        distinct.add(("c", json.dumps([c["variant"], c["cap"], c["subs"], c["states"]])))
+        chk = [d[1] for fr in c["frames"] for d in fr if d[0] == 2]
+        st = [a[0][0] & 0x0f for fr, ans in zip(c["frames"], c["answers"]) for d, a in zip(fr, ans) if d[0] == 2]
+        if sum(1 for fr in c["frames"] if any(d[0] == 2 for d in fr)) > 1:
+            multi += 1
+        if chk != c["subs"]:
+            ctx.classify("cycle-state-checks", f"C10 oracle: the cycle's status checks went to {chk[:8]}.. ({len(chk)}), the group is {c['subs'][:8]}.. ({len(c['subs'])})", slim)
+        elif c["states"] != st:
+            ctx.classify("cycle-states", f"C10 oracle: the cycle's state list {c['states']} is not what the devices answered {st}", slim)
+        if c.get("summ") is not None and c["summ"] != spec_summary(c["states"]):
+            ctx.classify("cycle-summary", f"C10 oracle: summaries of the cycle's state list {c['states']} say {c['summ']}, expected {spec_summary(c['states'])}", slim)
+    nsh = 8
+    shards = [cases[i::nsh] for i in range(nsh)]
+    texts = []
+    for sh in shards:
+        rows = []
+        for c in sh:
+            exp = ([0] + c["states"] + [-5] + [d[1] for fr in c["frames"] for d in fr if d[0] == 2]) if c["res"] == "Ok" else [-1]
+            subs = vlib.gz(c["subs"])
+            dcref = "None" if c["dcref"] == 0 else f"(Some {c['dcref']})"
+            cfg = "{| c_start := %d; c_len := %d%%nat; c_rlen := %d%%nat; c_subs := %s; c_room := %d%%nat; c_maxsd := 64%%nat; c_dcref := %s |}" % (
+                c["start"], c["len"], c["rlen"], subs, c["cap"] - 16, dcref)
+            resps = "[" + "; ".join("[" + "; ".join("(%s, %d)" % (vlib.gz(a[0]), a[1]) for a in fr) + "]" for fr in c["answers"]) + "]"
+            rows.append("((%s, %s, %s, %s, %s), %s%%Z)" % (cfg, "Release" if c["release"] else "Debug", C7.VAR[c["variant"]], vlib.gz(c["img"]), resps, vlib.gz(exp)))
+        texts.append("\n".join(["From EC Require Import Base.Prelude Base.Bytes Cycle.Cycle Cycle.CycleChecks Wire.Check.", "Local Open Scope N_scope.",
+                                "Definition cases : list ((cfg * mode * variant * list N * list (list answer)) * list Z) := [",
+                                ";\n".join(rows), "].",
+                                "Eval vm_compute in (0, map fst (mismatches (fun c => match c with (cf, md, v, img, rs) => obs_states cf md v img rs end) cases 0))."]) + "\n")
+    results = vlib.coq_eval_shards(ctx.pid + "cyc", texts)
+    for (rc, out), sh in zip(results, shards):
+        if rc != 0:
+            ctx.violation("model evaluation failed (cycle state lists): " + out[-300:], {"broken": "correspondence", "log": out[-2000:]}, no_input=True)
+            continue
+        v = vlib.parse_evals(out)
+        if not v or not v[0].endswith(", [])"):
+            idxs = [int(x) for x in re.findall(r"\d+", v[0][3:])] if v else []
+            first = sh[idxs[0]] if idxs and idxs[0] < len(sh) else None
+            if first:
+                first = {k: first[k] for k in first if k not in ("img", "img_after")}
+            ctx.violation("model and implementation disagree on a cycle's state list / status checks (first differing case in replay)",
+                          {"broken": "correspondence", "model": "coq/Cycle/CycleChecks.v obs_states", "case": first}, no_input=True)
+    return {"cycles": len(cases), "ok": sum(1 for c in cases if c["res"] == "Ok"), "status_checks_in_more_than_one_frame": multi}
 
 
 def run(ctx, replay=None):
@@ -93,6 +178,7 @@ def run(ctx, replay=None):
             return
     summ = [c for c in cases if c["kind"] == "summary"]
     trans = [c for c in cases if c["kind"] == "transition"]
+    waits = [c for c in cases if c["kind"] == "waitall"]
     distinct = set()
     for c in summ:
         distinct.add(("s", tuple(c["states"])))
@@ -106,14 +192,21 @@ def run(ctx, replay=None):
         r = oracle_transition(c)
         if r:
             ctx.classify(r[0], "C10 oracle: " + r[1], c)
+    for c in waits:
+        distinct.add(("w", json.dumps([c["counted"], c["desired"], c["limit"], c["scripts"]])))
+        k = "wait:" + c["res"] + ":" + c.get("err", "")[:14]
+        outcomes[k] = outcomes.get(k, 0) + 1
+        r = oracle_waitall(c)
+        if r:
+            ctx.classify(r[0], "C10 oracle: " + r[1], c)
     # model comparison
     nsh = 16
     texts = []
     shards = []
     for i in range(nsh):
-        ss, ts = summ[i::nsh], trans[i::nsh]
-        shards.append((ss, ts))
-        lines = ["From EC Require Import Base.Prelude Base.Bytes Cycle.Cycle Cycle.State Wire.Check.", "Local Open Scope N_scope.",
+        ss, ts, ws = summ[i::nsh], trans[i::nsh], waits[i::nsh]
+        shards.append((ss, ts, ws))
+        lines = ["From EC Require Import Base.Prelude Base.Bytes Cycle.Cycle Cycle.State Cycle.WaitAll Wire.Check.", "Local Open Scope N_scope.",
                  "Definition sc : list (list N * list Z) := [" + "; ".join("(%s, %s%%Z)" % (vlib.gz(c["states"]), vlib.gz(c["obs"])) for c in ss) + "].",
                  "Eval vm_compute in (0, map fst (mismatches obs_summary sc 0)).",
                  "Definition tc : list ((tcfg * list (list answer)) * list Z) := [" +
@@ -121,23 +214,31 @@ def run(ctx, replay=None):
                      vlib.gz(c["subs"]), c["cap"] - 16, c["desired"], c["limit"],
                      "[" + "; ".join("[" + "; ".join("(%s, %d)" % (vlib.gz(a[0]), a[1]) for a in fr) + "]" for fr in c["answers"]) + "]",
                      vlib.gz(exp_transition(c))) for c in ts) + "].",
-                 "Eval vm_compute in (1, map fst (mismatches (fun c => obs_transition (fst c) (snd c)) tc 0))."]
+                 "Eval vm_compute in (1, map fst (mismatches (fun c => obs_transition (fst c) (snd c)) tc 0)).",
+                 "Definition wc : list ((bcfg * list (list answer)) * list Z) := [" +
+                 ";\n".join("(({| b_n := %d; b_desired := %d; b_limit := %d%%nat |}, %s), %s%%Z)" % (
+                     c["counted"], c["desired"], c["limit"],
+                     "[" + "; ".join("[" + "; ".join("(%s, %d)" % (vlib.gz(a[0]), a[1]) for a in fr) + "]" for fr in c["answers"]) + "]",
+                     vlib.gz(exp_transition(c))) for c in ws) + "].",
+                 "Eval vm_compute in (2, map fst (mismatches (fun c => obs_waitall (fst c) (snd c)) wc 0))."]
         texts.append("\n".join(lines) + "\n")
     results = vlib.coq_eval_shards(ctx.pid, texts)
     dis = 0
-    for (rc, out), (ss, ts) in zip(results, shards):
+    for (rc, out), (ss, ts, ws) in zip(results, shards):
         if rc != 0:
             ctx.violation("model evaluation failed: " + out[-300:], {"broken": "correspondence", "log": out[-2000:]}, no_input=True)
             continue
         v = vlib.parse_evals(out)
-        for k, (val, group) in enumerate(zip(v, (ss, ts))):
+        for k, (val, group) in enumerate(zip(v, (ss, ts, ws))):
             if not val.endswith(", [])"):
                 dis += 1
                 idxs = [int(x) for x in re.findall(r"\d+", val[3:])]
                 first = group[idxs[0]] if idxs and idxs[0] < len(group) else None
-                ctx.violation("model and implementation disagree on a %s (first differing case in replay)" % ("summary" if k == 0 else "transition"),
+                ctx.violation("model and implementation disagree on a %s (first differing case in replay)" % ("summary", "transition", "network-wide wait")[k],
                               {"broken": "correspondence", "case": first}, no_input=True)
+    # ---- the per-cycle state list: real tx_rx / tx_rx_sync_system_time / tx_rx_dc cycles ----
+    cyc = cycle_stage(ctx, 400 if quick else 4000, distinct)
     ctx.coverage.update(evaluations=len(cases), distinct_nontrivial=len(distinct),
-                        rule="summaries: all state lists of length <=3 over the 16 state values exhaustively (first cases) then random longer lists; transitions: groups of 0..64 members needing 1..32 status frames, every member independently accepting after 0..13 polls, stalling, falling back, refusing, absent, or answering with the error flag; virtual-time transition timeout of 3..12 frames",
-                        summaries=len(summ), transitions=len(trans), transition_outcomes=outcomes, disagreements_checked=dis,
+                        rule="summaries: all state lists of length <=3 over the 16 state values exhaustively (first cases) then random longer lists; transitions: groups of 0..64 members needing 1..32 status frames, every member independently accepting after 0..13 polls, stalling, falling back, refusing, absent, or answering with the error flag; virtual-time transition timeout of 3..12 frames; network-wide waits (MainDevice::wait_for_state, broadcast read): 0..20 devices each with its own script (stalls, late, falls back, error flag with the old or the requested state, identification bit, absent), a device count that is sometimes one too many, all four requested states",
+                        summaries=len(summ), transitions=len(trans), network_waits=len(waits), cycles=cyc, transition_outcomes=outcomes, disagreements_checked=dis,
                         samples=[{k: trans[0][k] for k in ("subs", "desired", "limit", "scripts", "res")}] if trans else [summ[0]])
